@@ -584,9 +584,18 @@ def workload(ctx, lentil):
                   'exitance does not integrate to sigma*T^4', {'T': T, 'unit': wu}, scale=sm.SIGMA * T ** 4)
     # ---- Vega zero points -------------------------------------------------------------------------------
     bands = ['U', 'B', 'V', 'R', 'I', 'J', 'H', 'K', 'W1', 'W2', 'W3', 'W4']
+    # (band, central wavelength in nm, zero-point flux density in Jy) as tabulated in the documentation of vegaflux
+    VEGA_DOC = {'U': (360, 1790), 'B': (438, 4036), 'V': (545, 3636), 'R': (641, 3064), 'I': (798, 2416), 'J': (1220, 1589), 'H': (1630, 1021),
+                'K': (2190, 640), 'W1': (3353, 310), 'W2': (4603, 172), 'W3': (11561, 31.7), 'W4': (22088, 8.36)}
     for band in bands:
         ctx.case({'vega': band}, ['vega'])
         ref_f, ref_w = R.vegaflux(band, 'm', 'photlam')
+        # the tabulated zero point itself: F_nu [Jy] -> photons s^-1 m^-2 m^-1 is F_nu * 1e-26 / (h * lambda)
+        lam_doc, jy_doc = VEGA_DOC[band]
+        want_ph = jy_doc * 1e-26 / (float(R.H) * lam_doc * 1e-9)
+        ctx.close('vega', np.array([ref_f / want_ph, ref_w / (lam_doc * 1e-9)]), np.ones(2), 1e-12, 'vega|zero-point-table',
+                  'vegaflux is not the documented zero point (Jy at the band wavelength) expressed in photons s^-1 m^-2 m^-1', {'band': band,
+                  'got': [float(ref_f), float(ref_w)], 'want': [want_ph, lam_doc * 1e-9]}, scale=1.0)
         for wu in NAMES:
             for vu in sm.FLUX:
                 try:
@@ -610,6 +619,15 @@ def workload(ctx, lentil):
             ctx.close('vega', np.array([bb.value[1]]), np.array([E0 * 10 ** (-0.4 * mag)]), 1e-10, 'vegamag|zero-point',
                       'Blackbody.vegamag does not hit the zero-point flux at the band wavelength', {'band': band, 'wu': wu, 'mag': mag},
                       scale=E0 * 10 ** (-0.4 * mag))
+            # ... and away from it follows the Planck curve of its temperature (photon exitance ratio)
+            gm = grid * sm.WAVE_M[wu]
+            # (photon exitance ~ lambda^-4 / (exp(hc / lambda k T) - 1), with the module's own constants: a ratio of Planck
+            # curves amplifies a 1e-7 difference in hc/k by hc / lambda k T)
+            x_ = lambda lam_: np.asarray(float(R.H) * float(R.C) / (np.asarray(lam_, np.longdouble) * float(R.K) * T), np.longdouble)
+            ph = lambda lam_: np.asarray(np.asarray(lam_, np.longdouble) ** -4 / np.expm1(x_(lam_)), float)
+            ctx.close('vega', np.asarray(bb.value, float) / float(bb.value[1]), ph(gm) / ph(gm[1:2]), 1e-10, 'vegamag|shape',
+                      'Blackbody.vegamag does not follow the Planck curve of its temperature away from the band wavelength',
+                      {'band': band, 'wu': wu, 'T': T}, scale=1.0)
             # the conversions of the first clauses apply to every kind of spectrum object: a Vega-scaled blackbody (and a plain one)
             # converted to another flux unit is the same physical spectrum, through one step or two, and comes back on the way home
             plain = R.Blackbody(grid, T, waveunit=wu)
